@@ -68,7 +68,7 @@ def make_material(helper, d):
     return mat
 
 
-def scenario(idx, root, mat, kind, combo, fstate, helper):
+def scenario(idx, root, mat, kind, combo, fstate, helper, env_root=None):
     """combo: 3 values out of {None, 'needed', 'unrelated'} for (cli, endpoint, global)."""
     m = mat[kind]
     d = os.path.join(root, "s%d" % idx)
@@ -101,6 +101,16 @@ def scenario(idx, root, mat, kind, combo, fstate, helper):
         cfg["endpoint"][0]["root_certificates"] = ep
     if gl is not None:
         cfg["global"]["root_certificates"] = gl
+    if env_root:
+        # the root that WOULD make the chain validate is named only in an `env` table meant for hooks
+        # (SSL_CERT_FILE / SSL_CERT_DIR): it is not one of the three sources and must stay without effect
+        tbl = {"SSL_CERT_FILE": m["needed_root"], "SSL_CERT_DIR": os.path.dirname(m["needed_root"])}
+        if env_root == "global":
+            cfg["global"]["env"] = tbl
+        elif env_root == "certificate":
+            cfg["certificate"][0]["env"] = tbl
+        else:
+            cfg["account"][0]["env"] = tbl
     cfg_path = cfggen.write(os.path.join(d, "acmed.toml"), cfg)
     extra = []
     for p in (cli or []):
@@ -116,7 +126,7 @@ def scenario(idx, root, mat, kind, combo, fstate, helper):
     observed_roots = None
     if isinstance(dump, dict) and "loaded" in dump:
         observed_roots = dump["loaded"]["endpoints"][0]["root_certificates"]
-    return {"idx": idx, "kind": kind, "combo": list(combo), "fstate": fstate, "chain_valid": chain_valid,
+    return {"idx": idx, "kind": kind + ("+env:" + env_root if env_root else ""), "combo": list(combo), "fstate": fstate, "chain_valid": chain_valid,
             "root_files_ok": fstate == "ok", "requests_seen": len(reqs),
             "signed_requests_seen": sum(1 for r in reqs if r["method"] == "POST"), "attempt_ok": ok,
             "completed": bool(po), "rc": rc, "cli": cli or [], "endpoint": ep, "global": gl,
@@ -189,8 +199,12 @@ def run(ctx):
         for kind in KINDS:
             for combo in itertools.product(["unrelated", "needed"], repeat=3):
                 grid.append((kind, combo, "ok"))
+        grid = [g + (None,) for g in grid]
+        for lvl in ("global", "certificate", "account"):
+            grid.append(("trusted", (None, None, None), "ok", lvl))
+            grid.append(("trusted", (None, "unrelated", None), "ok", lvl))
         with concurrent.futures.ThreadPoolExecutor(max_workers=12) as ex:
-            results = list(ex.map(lambda a: scenario(a[0], root, mat, a[1][0], a[1][1], a[1][2], helper),
+            results = list(ex.map(lambda a: scenario(a[0], root, mat, a[1][0], a[1][1], a[1][2], helper, env_root=a[1][3]),
                                   enumerate(grid)))
         two = [two_endpoints(i, root, mat, helper, first, with_global=g)
                for i, (first, g) in enumerate([("A", False), ("B", False), ("A", True), ("B", True)])]
